@@ -15,7 +15,7 @@ import numpy as np
 from hypothesis import strategies as st
 
 from vlib import nx
-from vlib.run import EngineError, Verdict, engine
+from vlib.run import EngineError, Verdict, engine_direct as engine
 
 EV_MIN, EV_MAX, EV_GROUND = 1, 2, 4
 HEUR = ["min", "max", "split_low", "mid", "min_cost"]
